@@ -363,10 +363,26 @@ def spd_task(cfg, tier):
 # bounded: the real library executed, exact Fraction oracle
 # ---------------------------------------------------------------------------------------------------------------------
 
+_SNAP = {}
+
+
+def _snapshot_tables():
+    """deep copies of every module class's datasheet tables taken BEFORE any module object is built in this process: the
+    oracle must not follow a constructor that writes into the shared class tables"""
+    import copy
+    if _SNAP:
+        return
+    for cls in all_module_classes():
+        _SNAP[cls] = (copy.deepcopy(getattr(cls, "technology_timings", None)), copy.deepcopy(getattr(cls, "speedgrade_timings", None)))
+
+
 def _entry(cls_or_obj, name, speedgrade, key):
     """independent lookup of the datasheet entry (ck, ns) of a module class"""
     tt = getattr(cls_or_obj, "technology_timings", None)
     st = getattr(cls_or_obj, "speedgrade_timings", None)
+    k_ = cls_or_obj if isinstance(cls_or_obj, type) else type(cls_or_obj)
+    if k_ in _SNAP:
+        tt, st = _SNAP[k_]
     val = None
     if name in M._speedgrade_timings:
         if st is not None:
@@ -431,6 +447,11 @@ def check_instance(mod, cls, speedgrade, frm, clk, rate):
 
 
 def library_task(cfg, tier):
+    _snapshot_tables()
+    return _library_task(cfg, tier)
+
+
+def _library_task(cfg, tier):
     t0 = time.time()
     classes = all_module_classes()
     part, nparts = cfg["part"], cfg["nparts"]
